@@ -25,17 +25,20 @@ func Walk(node Node, f func(Node) bool) {
 		walkComments(node.Last, f)
 	case *Comment:
 	case *Stmt:
-		for _, c := range node.Comments {
+		// Comments before the statement first, those after it last.
+		leading := len(node.Comments)
+		for i, c := range node.Comments {
 			if !node.End().After(c.Pos()) {
-				defer Walk(&c, f)
+				leading = i
 				break
 			}
-			Walk(&c, f)
 		}
+		walkComments(node.Comments[:leading], f)
 		if node.Cmd != nil {
 			Walk(node.Cmd, f)
 		}
 		walkList(node.Redirs, f)
+		walkComments(node.Comments[leading:], f)
 	case *Assign:
 		walkNilable(node.Name, f)
 		walkNilable(node.Value, f)
@@ -138,16 +141,18 @@ func Walk(node Node, f func(Node) bool) {
 		walkList(node.Items, f)
 		walkComments(node.Last, f)
 	case *CaseItem:
-		for _, c := range node.Comments {
+		leading := len(node.Comments)
+		for i, c := range node.Comments {
 			if c.Pos().After(node.Pos()) {
-				defer Walk(&c, f)
+				leading = i
 				break
 			}
-			Walk(&c, f)
 		}
+		walkComments(node.Comments[:leading], f)
 		walkList(node.Patterns, f)
 		walkList(node.Stmts, f)
 		walkComments(node.Last, f)
+		walkComments(node.Comments[leading:], f)
 	case *TestClause:
 		Walk(node.X, f)
 	case *DeclClause:
@@ -157,15 +162,17 @@ func Walk(node Node, f func(Node) bool) {
 		walkList(node.Elems, f)
 		walkComments(node.Last, f)
 	case *ArrayElem:
-		for _, c := range node.Comments {
+		leading := len(node.Comments)
+		for i, c := range node.Comments {
 			if c.Pos().After(node.Pos()) {
-				defer Walk(&c, f)
+				leading = i
 				break
 			}
-			Walk(&c, f)
 		}
+		walkComments(node.Comments[:leading], f)
 		walkNilable(node.Index, f)
 		walkNilable(node.Value, f)
+		walkComments(node.Comments[leading:], f)
 	case *ExtGlob:
 		Walk(node.Pattern, f)
 	case *ProcSubst:
